@@ -51,6 +51,16 @@ Theorem C01_imod_eq : forall nochecks a b, in_i64 a -> in_i64 b -> b <> 0 ->
 Proof. exact rt_imod_ok. Qed.
 Print Assumptions C01_imod_eq.
 
+(* the two theorems above depend on the scraped answer of Attr:is_maybe_negative for a run-time int64 operand
+   (Model.rt_maybe_negative, computed from the scraped exits): for EVERY answer, the emitted // and % are Lua's for
+   all operands exactly when the operand counts as possibly negative; otherwise -7 // 2 = -3 and -7 % 2 = -1 *)
+Theorem C01_idiv_maybe_negative_iff : forall mn,
+  (forall nochecks a b, in_i64 a -> in_i64 b -> b <> 0 ->
+     emit_idiv idiv_guard_first base_mode I64 mn nochecks a b = lua_out (lidiv a b) /\
+     emit_imod imod_guard_first base_mode I64 mn nochecks a b = lua_out (lmod a b)) <-> mn = true.
+Proof. exact idiv_maybe_negative_iff. Qed.
+Print Assumptions C01_idiv_maybe_negative_iff.
+
 Theorem C01_div_by_zero_both_stop : forall a, in_i64 a ->
   rt_idiv false a 0 = lua_out (lidiv a 0) /\ rt_imod false a 0 = lua_out (lmod a 0).
 Proof. exact rt_div_zero. Qed.
